@@ -19,6 +19,15 @@ CLAIMED = {
          "Static decision of C20's table clauses (18 leap seconds, epoch, 16 EIRP codes, ordering) plus three structural necessary conditions of its conversion clauses (every table entry consulted; decode index guarded; no scaled-up truncated quotient in airtime). Round-trip/monotonicity of the conversions, the float airtime formula and sensitivity numerics are runtime-value behaviour and are not decided.",
          "Trusts go/types, go/ssa, package time, spec/time.json.",
          "DESIGN.md §3 C20"),
+
+ "C06": ("bit-precise abstract interpretation (BDD vectors over field/wire bits, if-converted control flow, linear forms for unit scaling) of every fixed-layout MarshalBinary/UnmarshalBinary, compared bit-for-bit with an independently transcribed layout table; registry literal compared with the specification's command list",
+         "Static decision, for all field values and all byte values at once, that each fixed-layout encoder's wire bits and each decoder's field values are the functions the specification table prescribes (position, width, endianness, 100 Hz unit, 6-bit two's complement, 1/256 s), that reserved bits are emitted as 0 and ignored on receipt, and that the registry matches. This is equivalence of extracted boolean functions, not sampling; it is 'other' rather than 'proof' because the extraction trusts my interpreter's operator semantics and the hand transcription, and revision-dependent cells are unarmed.",
+         "Trusts internal/absint (operator semantics, models of encoding/binary/append/copy), props/wirespec_mac.go. Variable-length frames are covered by C01/C08.",
+         "DESIGN.md §3 C06"),
+ "C07": ("bit-precise abstract interpretation: encoder accept condition as a BDD compared with the specification range; decoder interpreted on the encoder's abstract output to prove decode(encode(v))=v for all accepted v; decoder interpreted on size±1 bytes; AST/SSA structural rules for the command-stream loop, registry and port-0 guard",
+         "Static decision per MAC payload type of: every in-range value accepted, every accepted value representable (no silent truncation, unit scaling exact), lossless inverse for all accepted values, registry size = encoded length = decoder's exact-length test, plus the structural stream rules (guard before slice, advance by 1+size, unknown CID size 0, port-0 guard truth table). Command sequences are covered through self-delimitation, not enumerated; DeviceTimeAns' missing range guard is outside the domain.",
+         "Trusts internal/absint, props/wirespec_mac.go ranges; registry-writer/lock discipline comes from the effects engine (rule R6).",
+         "DESIGN.md §3 C07"),
 }
 
 NOT_APPLICABLE = {
